@@ -72,8 +72,16 @@ def check(chk):
 
     # loop termination
     tc = cl.func('ControlConnection._try_connect')
-    loops = [n for n in tc.body if isinstance(n, ast.While)]
-    if len(loops) != 1 or src(loops[0].test) != 'True':
+    # the negotiation loop: in _try_connect itself or in a private method of ControlConnection it calls
+    tc_scopes = [tc] + [cl.func('ControlConnection.' + c_.func.attr) for c_ in body_walk(tc) if isinstance(c_, ast.Call) and isinstance(c_.func, ast.Attribute)
+                        and src(c_.func.value) == 'self' and c_.func.attr.startswith('_') and cl.has('ControlConnection.' + c_.func.attr)]
+    loops, loop_fn = [], tc
+    for f_ in tc_scopes:
+        ls_ = [n for n in f_.body if isinstance(n, ast.While) and src(n.test) == 'True' and any(isinstance(x, ast.Call) and src(x.func).endswith('connection_factory') for x in ast.walk(n))]
+        if ls_:
+            loops, loop_fn = ls_, f_
+            break
+    if len(loops) != 1:
         raise AnalysisError('_try_connect: connect loop not found')
     tr = [n for n in loops[0].body if isinstance(n, ast.Try)]
     if len(tr) != 1 or len(loops[0].body) != 1:
@@ -85,7 +93,8 @@ def check(chk):
         if not stmts:
             return set(['fall'])
         last = stmts[-1]
-        if isinstance(last, ast.Break):
+        if isinstance(last, ast.Break) or (isinstance(last, ast.Return) and last.value is not None and loop_fn is not tc):
+            # leaving the loop with the connection: break, or - when the loop lives in a helper - returning it
             return set(['break'])
         if isinstance(last, ast.Raise):
             return set(['raise'])
@@ -101,9 +110,17 @@ def check(chk):
         chk.judge(e <= set(['raise', 'downgrade']), 'C41.loop', h, 'except %s ends in raise or protocol_downgrade' % src(h.type), 'handler for %s ends in %s: the loop can spin without lowering the version' % (src(h.type), sorted(e)))
     hs = dict((src(h.type), h) for h in t.handlers)
     pvu = hs.get('ProtocolVersionUnsupported')
-    chk.judge(pvu is not None and 'self._cluster.protocol_downgrade(host.endpoint, e.startup_version)' in src(pvu), 'C41.loop', t, 'unsupported version -> downgrade from the version that was tried', 'downgrade starts from another version')
+    chk.judge(pvu is not None and any(isinstance(c_, ast.Call) and src(c_.func) == 'self._cluster.protocol_downgrade' and [src(a_) for a_ in c_.args] == ['host.endpoint', 'e.startup_version']
+                                      for st_ in pvu.body for c_ in ast.walk(st_)), 'C41.loop', t, 'unsupported version -> downgrade from the version that was tried', 'downgrade starts from another version')
     pe = hs.get('ProtocolException')
-    chk.judge(pe is not None and 'not self._cluster._protocol_version_explicit and e.is_beta_protocol_error' in src(pe), 'C41.loop', t, 'beta protocol error downgrades only an implicit version', 'beta error handling changed')
+    okpe = pe is not None
+    if okpe:
+        from ..sem import flow_of as _flow41
+        g41, fl41 = _flow41(loop_fn)
+        dn = [n for n in g41.stmt_nodes() if n.kind == 'stmt' and any(n.ast is x for st_ in pe.body for x in ast.walk(st_))
+              and any(isinstance(x, ast.Call) and src(x.func) == 'self._cluster.protocol_downgrade' for x in ast.walk(n.ast))]
+        okpe = bool(dn) and all(fa.knows('self._cluster._protocol_version_explicit') is False and fa.knows('e.is_beta_protocol_error') is True for n in dn for fa, _c in fl41.at(n))
+    chk.judge(okpe, 'C41.loop', t, 'beta protocol error downgrades only an implicit version (at the downgrade: not explicit, beta error)', 'beta error handling changed')
     # the version a downgrade starts from is the one that was just refused: the version carried by the exception, or the cluster's current version (the one the
     # connection was opened with in this iteration) - never a value remembered from an earlier iteration, or the sequence steps up again and does not terminate
     for h in t.handlers:
